@@ -47,9 +47,17 @@ func mutateFrame(t *rapid.T, msg []byte) [][]byte {
 				fields[i] = append(append(append([]byte{}, fields[i][:eq+1]...), v...), 1)
 			}
 		}
-		switch rapid.SampledFrom([]string{"hostile-value", "hostile-value", "empty-value", "dup", "drop", "swap", "insert-field", "retag"}).Draw(t, "mutation") {
+		switch rapid.SampledFrom([]string{"hostile-value", "hostile-value", "hostile-time", "empty-value", "dup", "drop", "swap", "insert-field", "retag"}).Draw(t, "mutation") {
+		case "hostile-time":
+			at := idx
+			for k, f := range fields {
+				if bytes.HasPrefix(f, []byte("52=")) && rapid.Bool().Draw(t, "sending-time") {
+					at = k
+				}
+			}
+			setValue(at, vk.HostileTimestamp(t, "ts"))
 		case "hostile-value":
-			setValue(idx, rapid.SampledFrom(c09Hostile).Draw(t, "v"))
+			setValue(idx, vk.HostileNumber(t, "v", c09Hostile))
 		case "empty-value":
 			setValue(idx, "")
 		case "dup":
@@ -60,7 +68,7 @@ func mutateFrame(t *rapid.T, msg []byte) [][]byte {
 			j := rapid.IntRange(0, len(fields)-1).Draw(t, "other")
 			fields[idx], fields[j] = fields[j], fields[idx]
 		case "insert-field":
-			f := rapid.SampledFrom([]string{"212=5\x01", "212=99999\x01", "213=<x>\x01", "34=\x01", "43=Y\x01", "122=x\x01", "123=Y\x01", "36=\x01", "7=\x01", "16=-1\x01", "108=x\x01", "141=Y\x01", "453=3\x01", "=\x01", "x=1\x01", "10=\x01"}).Draw(t, "ins")
+			f := rapid.SampledFrom([]string{"212=5\x01", "212=99999\x01", "212=9223372036854775807\x01", "212=9223372036854775800\x01", "213=<x>\x01", "34=\x01", "43=Y\x01", "122=x\x01", "123=Y\x01", "36=\x01", "7=\x01", "16=-1\x01", "108=x\x01", "141=Y\x01", "453=3\x01", "=\x01", "x=1\x01", "10=\x01"}).Draw(t, "ins")
 			fields = append(fields[:idx], append([][]byte{[]byte(f)}, fields[idx:]...)...)
 		case "retag":
 			if eq := bytes.IndexByte(fields[idx], '='); eq >= 0 {
@@ -73,7 +81,17 @@ func mutateFrame(t *rapid.T, msg []byte) [][]byte {
 	p := quickfix.VerifNewParser(bytes.NewReader(msg))
 	var frames [][]byte
 	for i := 0; i < 4; i++ {
-		f, err := p.ReadMessage()
+		var f []byte
+		var err error
+		func() {
+			defer func() {
+				if pv := recover(); pv != nil {
+					// the framer itself gave way: the same defect the stream target of this property reports
+					vk.Violation(t, c09(), "C09/stream/panic/"+vk.PanicClass(pv), "ReadMessage panicked while framing for the session target: %v; input %q", pv, msg)
+				}
+			}()
+			f, err = p.ReadMessage()
+		}()
 		if err != nil {
 			break
 		}
